@@ -67,8 +67,10 @@ Val(f, k) == IF k \in DOMAIN f THEN f[k] ELSE <<>>
 
 SampleOK(raw, bam) == LET r == TagFun(raw) IN
     "SM" \in DOMAIN bam /\ bam["SM"] = Val(r, "LY") \o <<95>> \o (IF "bi" \in DOMAIN r THEN r["bi"] ELSE <<66, 85, 76, 75>>)
+(* the index of the molecular identifier is the corrected sequencing index aA; where the demultiplexer wrote none  *)
+(* (no index parser configured / header without index) the statement makes no claim about MI                       *)
 MoleculeOK(raw, bam) == LET r == TagFun(raw) IN
-    "MI" \in DOMAIN bam /\ bam["MI"] = Val(r, "BC") \o Val(r, "RX") \o Val(r, "aA")
+    "aA" \in DOMAIN r => ("MI" \in DOMAIN bam /\ bam["MI"] = Val(r, "BC") \o Val(r, "RX") \o Val(r, "aA"))
 
 RoundTripOK(raw, bam, qname, coords) ==
     /\ FirstBadKey(raw, bam) = ""
